@@ -118,6 +118,11 @@ func c10HistText(d int, minimal bool) string {
 			t = strings.Replace(t, tok, "", 1)
 		}
 	}
+	if minimal && d == 6 {
+		// the same plane convention written with the height letter in the middle (west, down, north): for the two
+		// coordinates a transformer handles it is +axis=wnu
+		t = strings.Replace(t, "+axis=wnu", "+axis=wdn", 1)
+	}
 	return t
 }
 
